@@ -97,6 +97,7 @@ def oracle_fs(sc, res, which):
     out = []
     total = sc["total"]
     dead_obs = False
+    reclaimed_release = set()
     for k, st in enumerate(res["steps"]):
         o = st["obs"]
         if st["res"].startswith("raised") and st["op"][0] == "deliver":
@@ -108,6 +109,11 @@ def oracle_fs(sc, res, which):
         elif st["res"].startswith("raised"):
             out.append((which + ":exception:" + st["op"][0], "unexpected exception %s in %s" % (st["res"], st["op"]), k))
         disk = dict((n, c) for n, c in o["disk"])
+        if st["op"][0] == "release" and k > 0 and \
+                not any(n == "j%d.token" % st["op"][2] for n, _ in res["steps"][k - 1]["obs"]["disk"]):
+            reclaimed_release.add(st["op"][1])   # this process released a holding whose file was already gone
+        if st["op"][0] in ("kill", "start"):
+            reclaimed_release.discard(st["op"][1])
         if which == "C08":
             # weighted sum of the holdings recorded in the directory (a file being created stands for
             # the request of its job)
@@ -155,9 +161,12 @@ def oracle_fs(sc, res, which):
                         if sc["jobs"][i]["p"] == p and ph == "idle" and not orph and stt == "WAIT" \
                                 and 1 <= sc["jobs"][i]["c"] <= total:
                             if pr["obs"]:
-                                out.append(("C09:waiting-job-fits-at-quiescence:observer-alive",
+                                cause = "release-after-reclaim" if p in reclaimed_release else "observer-alive"
+                                out.append(("C09:waiting-job-fits-at-quiescence:" + cause,
                                             "job %d (request %d <= total %d) is WAITING at quiescence, nothing pending, "
-                                            "observer alive" % (i, sc["jobs"][i]["c"], total), k))
+                                            "observer alive%s" % (i, sc["jobs"][i]["c"], total,
+                                            "; its scheduler released a token whose file a watcher had already deleted"
+                                            if cause == "release-after-reclaim" else ""), k))
                             # with a dead observer this is the consequence of the handler exception
                             # already reported at the step where it escaped
     del dead_obs
